@@ -65,7 +65,7 @@ pub fn passes(tier: &str) -> Vec<Pass> {
 pub fn run(tier: &str) -> i32 {
     let t0 = Instant::now();
     let mut o = Outcome::new("C12", tier, "model_checking");
-    let ps = passes(tier);
+    let ps = with_dedup(passes(tier), tier);
     let wit = run_passes(&mut o, &ps);
     // E2 part: a crash before every file-mutating call of create/delete/reopen programs
     let q = tier == "quick";
